@@ -3,6 +3,7 @@ package converters
 import (
 	"bufio"
 	"encoding/binary"
+	"errors"
 	"fmt"
 	"io"
 	"log"
@@ -235,7 +236,8 @@ func NewCacheFile(cachePath string) (*cacheFile, error) {
 	// read the file header
 	fh := converterCacheFileHeader{}
 	if err := binary.Read(buffer, binary.LittleEndian, &fh); err != nil {
-		if err == io.EOF {
+		// an empty file or a partly written file header: start with an empty cache
+		if err == io.EOF || err == io.ErrUnexpectedEOF {
 			if err := res.Reset(); err != nil {
 				return nil, fmt.Errorf("failed to reset cache file: %w", err)
 			}
@@ -253,10 +255,16 @@ func NewCacheFile(cachePath string) (*cacheFile, error) {
 	}
 
 	// Read all stream ids
+	tornTail := false
 	for {
 		streamSection := converterStreamSection{}
 		if err := binary.Read(buffer, binary.LittleEndian, &streamSection); err != nil {
 			if err == io.EOF {
+				break
+			}
+			if err == io.ErrUnexpectedEOF {
+				// the last record was only partly written
+				tornTail = true
 				break
 			}
 			return nil, fmt.Errorf("failed to read stream header: %w", err)
@@ -265,6 +273,12 @@ func NewCacheFile(cachePath string) (*cacheFile, error) {
 
 		streamSize, err := skipStream(buffer)
 		if err != nil {
+			if errors.Is(err, io.EOF) || errors.Is(err, io.ErrUnexpectedEOF) {
+				// the last record was only partly written
+				res.fileSize -= streamHeaderSize
+				tornTail = true
+				break
+			}
 			return nil, fmt.Errorf("failed to skip stream data: %w", err)
 		}
 
@@ -279,6 +293,12 @@ func NewCacheFile(cachePath string) (*cacheFile, error) {
 			size:   uint64(streamSize),
 		}
 		res.fileSize += int64(streamSize)
+	}
+	if tornTail {
+		// drop the partial record, new records are appended at fileSize
+		if err := file.Truncate(res.fileSize); err != nil {
+			return nil, fmt.Errorf("failed to remove partly written record: %w", err)
+		}
 	}
 	if res.freeSize == 0 {
 		res.freeStart = res.fileSize
